@@ -49,6 +49,7 @@ class Contract:
     spec: Dict[str, Any] = dataclasses.field(default_factory=dict)      # extra names for contract expressions
     assumes: List[str] = dataclasses.field(default_factory=list)        # textual assumptions shown in evidence
     props: List[str] = dataclasses.field(default_factory=list)
+    never_returns: bool = False                  # the contract says every call raises: the canary (a reachable normal exit) is replaced by 'an exceptional exit was checked'
 
     @property
     def module(self):
